@@ -47,7 +47,7 @@ SEQ_ATTR = 'items'
 
 def seq_names(model, fi):
     """Expressions (normalised) that denote the client sequence in fi."""
-    names = set()
+    names = set(getattr(fi, '_dt_seq_params', ()))
     params = fi.params()
     if fi.where == 'DT_InSV:opt':
         names.add(params[-1])
@@ -104,17 +104,29 @@ def batch_closure(model):
     seen = {f.where: f for f in todo}
     while todo:
         fi = todo.pop()
+        names = seq_names(model, fi)
         for n in own_nodes(fi.node):
             if not isinstance(n, ast.Call):
                 continue
             for t in model.resolve_callee(n.func, fi):
-                if t[0] == 'func' and t[1].where not in seen and \
+                if t[0] == 'func' and \
                         t[1].where not in EXCEPTED and \
                         t[1].module.short in ('DT_In', 'DT_InSV') and \
                         t[1].name not in ('__init__',) and \
                         not t[1].where.startswith('DT_In:InClass.render'):
-                    seen[t[1].where] = t[1]
-                    todo.append(t[1])
+                    # parameters of the helper that receive the sequence
+                    ps = t[1].params()
+                    off = 1 if t[1].cls is not None and ps[:1] == ['self'] \
+                        else 0
+                    got = set(getattr(t[1], '_dt_seq_params', ()))
+                    for i, a in enumerate(n.args):
+                        if norm(a) in names and i + off < len(ps):
+                            got.add(ps[i + off])
+                    new = got != set(getattr(t[1], '_dt_seq_params', ()))
+                    t[1]._dt_seq_params = got
+                    if t[1].where not in seen or new:
+                        seen[t[1].where] = t[1]
+                        todo.append(t[1])
     return seen
 
 
@@ -213,7 +225,7 @@ def rule_effects(model):
                         tg.add(f'{t[1].module.short}:{t[1].name}.__init__')
                     elif t[0] == 'unknown' or t[0] == 'method':
                         tg.add('?' + norm(n.func))
-                ok = all(w in BATCH_PATH or w in EXCEPTED or
+                ok = all(w in closure or w in EXCEPTED or
                          w == 'DT_Util:sequence_supports_subscription'
                          or w.startswith('?guarded_getitem')
                          or w == 'DT_Util:SequenceFromIter.__init__'
@@ -307,19 +319,35 @@ def rule_puller(model):
     for fi in model.all_funcs():
         for n in own_nodes(fi.node):
             if isinstance(n, ast.Attribute) and n.attr == it_attr and \
-                    isinstance(n.value, ast.Name) and \
-                    (fi.cls is cls or n.value.id != 'self'):
-                if fi.cls is not cls and not (
-                        isinstance(n.value, ast.Name) and
-                        n.value.id not in ('self',)):
+                    isinstance(n.value, ast.Name) and n.value.id == 'self' \
+                    and fi.cls is cls:
+                r.instance(fi.where, n, 'owner class')
+                # outside __init__ the iterator is only advanced, and what
+                # it yields is stored: <data>.append(next(self.it))
+                if fi is init:
                     continue
-                inside = fi is gi or fi is init
-                if fi.cls is cls or norm(n) == f'self.{it_attr}':
-                    r.instance(fi.where, n, 'owner' if inside else 'FOREIGN')
-                    if not inside:
-                        r.finding(fi.where, n, 'the wrapped iterator is '
-                                  'touched outside __getitem__', node=n,
-                                  ctx=fi)
+                par = n._dt_parent
+                gp = getattr(par, '_dt_parent', None)
+                stored = isinstance(par, ast.Call) and \
+                    norm(par.func) == 'next' and isinstance(gp, ast.Call) \
+                    and isinstance(gp.func, ast.Attribute) and \
+                    gp.func.attr == 'append' and \
+                    norm(gp.func.value) == f'self.{data_attr}'
+                if not stored:
+                    r.finding(fi.where, par, 'the wrapped iterator is used '
+                              'other than by storing its next element: '
+                              'elements are pulled without being kept (or '
+                              'several at once)', node=n, ctx=fi)
+    # nobody outside the class reaches the wrapped iterator
+    for fi in model.all_funcs():
+        if fi.cls is cls:
+            continue
+        for n in own_nodes(fi.node):
+            if isinstance(n, ast.Attribute) and n.attr == it_attr and \
+                    isinstance(n.value, ast.Name) and \
+                    n.value.id in ('sequence', 'items', 'seq'):
+                r.finding(fi.where, n, 'the wrapped iterator is touched '
+                          'outside the lazy wrapper', node=n, ctx=fi)
     nexts = [n for n in own_nodes(gi.node) if isinstance(n, ast.Call)
              and isinstance(n.func, ast.Name) and n.func.id == 'next']
     idx = gi.params()[1]
